@@ -43,6 +43,7 @@ def run(ctx):
     ctx.rule(single_chunk_history)
     ctx.rule(split_invariance)
     ctx.rule(frame_style_domain)
+    ctx.rule(instance_state_only)
     ctx.rule(si_finalize)
     ctx.rule(carry)
     ctx.rule(shift_register)
@@ -347,6 +348,14 @@ def _full_sibling(ctx, R="R-C01-geom-siblings"):
     path is held to (frame count, paddings, frame bounds per frame style / kaldi_shift)"""
     from .c02 import geom
     geom(ctx, R)
+
+
+def instance_state_only(ctx, R="R-C01-carry-reset"):
+    """what is carried from chunk to chunk lives on the instance: a buffer or counter kept in a module-level or class-level object is
+    shared with every other computer of the process, and a second stream (or a compute_full on another instance) in between
+    overwrites the history the next chunk relies on (the rule of C04, re-established here)"""
+    from .c04 import no_module_state
+    no_module_state(ctx, R)
 
 
 def frame_style_domain(ctx, R="R-C01-geom-siblings"):
